@@ -540,7 +540,7 @@ func (e *Exec) execInstr(st *State, fr *Frame, in ssa.Instruction) ([]*State, bo
 			if c.S != "true" {
 				s1 = st.clone()
 				s1.pathID = e.newPathID()
-				s1.assert(c)
+				s1.assertBranch(c)
 				s1.pcs = append(s1.pcs, fmt.Sprintf("%s: %s", e.eng.posString(x.Cond.Pos()), what))
 			}
 			if e.enter(s1, tb) {
@@ -552,7 +552,7 @@ func (e *Exec) execInstr(st *State, fr *Frame, in ssa.Instruction) ([]*State, bo
 		}
 		nc := Not(c)
 		if c.S != "false" {
-			st.assert(nc)
+			st.assertBranch(nc)
 			st.pcs = append(st.pcs, fmt.Sprintf("%s: !(%s)", e.eng.posString(x.Cond.Pos()), what))
 		}
 		if e.enter(st, fb) {
@@ -1074,7 +1074,10 @@ func (e *Exec) checkInvariants(st *State, fr *Frame, li *loopInfo, phis []*ssa.P
 		if name == "" {
 			name = fmt.Sprintf("%d", i+1)
 		}
-		e.oblige(st, kind, fmt.Sprintf("%s/loop%d:%s", fr.fn.Name(), li.ordinal, name), t, li.head.Instrs[0].Pos(), cl.Tags, cl.Text)
+		// loop invariants are structural: every postcondition of the function
+		// is proved from them, whichever property it is tagged with, so their
+		// obligations count for every property (nil tags)
+		e.oblige(st, kind, fmt.Sprintf("%s/loop%d:%s", fr.fn.Name(), li.ordinal, name), t, li.head.Instrs[0].Pos(), nil, cl.Text)
 	}
 }
 
